@@ -8,7 +8,7 @@ package internal
 
 //@ spec secs(x TimeOfDay) mathint = x.hour*3600 + x.minute*60 + x.second
 //@ spec todok(x TimeOfDay) bool = 0 <= x.hour && x.hour < 24 && 0 <= x.minute && x.minute < 60 && 0 <= x.second && x.second < 60 && x.d == secs(x) * 1000000000
-//@ spec trwf(r *TimeRange) bool = r.loc != nil && todok(r.startTime) && todok(r.endTime) && (forall i :: 0 <= i && i < len(r.weekdays) ==> 0 <= r.weekdays[i] && r.weekdays[i] <= 6) && (r.startDay != nil ==> (r.endDay != nil && 0 <= *r.startDay && *r.startDay <= 6 && 0 <= *r.endDay && *r.endDay <= 6)) && (r.startDay == nil ==> r.endDay == nil)
+//@ spec trwf(r *TimeRange) bool = r.loc != nil && todok(r.startTime) && todok(r.endTime) && (forall i :: 0 <= i && i < len(r.weekdays) ==> 0 <= r.weekdays[i] && r.weekdays[i] <= 6) && (r.startDay != nil ==> (r.endDay != nil && 0 <= *r.startDay && *r.startDay <= 6 && 0 <= *r.endDay && *r.endDay <= 6)) && (r.startDay == nil ==> r.endDay == nil) && (r.startDay != nil ==> len(r.weekdays) == 0)
 
 // the weekday filter: a daily window exists for day D iff no weekdays are configured or weekday(D) is listed
 //@ spec dayok(r *TimeRange, wd mathint) bool = len(r.weekdays) == 0 || (exists i :: 0 <= i && i < len(r.weekdays) && r.weekdays[i] == wd)
@@ -45,3 +45,62 @@ package internal
 //@   requires trwf(r)
 //@   requires @away awayD(r, lsecIn(t, r.loc))
 //@   ensures @window result <==> indaily(r, lsecIn(t, r.loc))
+
+// weekly window number k (weeks counted from a Sunday 00:00 local): opens on startDay at startTime and closes at
+// the next endDay endTime (one week later when that would not be after the opening)
+//@ spec sunx(x mathint) mathint = x + 4*86400
+//@ spec wopen(r *TimeRange) mathint = *r.startDay*86400 + secs(r.startTime)
+//@ spec wclose(r *TimeRange) mathint = *r.endDay*86400 + secs(r.endTime) + (*r.startDay*86400 + secs(r.startTime) < *r.endDay*86400 + secs(r.endTime) ? 0 : 604800)
+//@ spec inwk(r *TimeRange, x mathint, k mathint) bool = k*604800 + wopen(r) <= sunx(x) && sunx(x) <= k*604800 + wclose(r)
+//@ spec inweekly(r *TimeRange, x mathint) bool = inwk(r, x, div(sunx(x), 604800)) || inwk(r, x, div(sunx(x), 604800) - 1)
+//@ spec awayW(r *TimeRange, x mathint) bool = mod(sunx(x), 604800) != wopen(r) && mod(sunx(x), 604800) != *r.endDay*86400 + secs(r.endTime) && awayD(r, x)
+
+// position in the Sunday-based week = weekday * 86400 + time of day
+//@ lemma weeksec(x mathint) [C18]: mod(x + 345600, 604800) == mod(div(x, 86400) + 4, 7)*86400 + mod(x, 86400) && div(x + 345600, 604800)*7 + mod(div(x, 86400) + 4, 7) == div(x, 86400) + 4
+
+//@ func (r *TimeRange) isInWeekRange [C18]
+//@   pure
+//@   uses weeksec(lsecIn(t, r.loc))
+//@   requires trwf(r) && r.startDay != nil
+//@   requires @away awayW(r, lsecIn(t, r.loc))
+//@   ensures @window result <==> inweekly(r, lsecIn(t, r.loc))
+
+//@ spec inrange(r *TimeRange, x mathint) bool = r.startDay != nil ? inweekly(r, x) : indaily(r, x)
+//@ spec away(r *TimeRange, x mathint) bool = r.startDay != nil ? awayW(r, x) : awayD(r, x)
+
+//@ func (r *TimeRange) IsInRange [C18]
+//@   pure
+//@   nilable
+//@   requires r != nil ==> trwf(r) && away(r, lsecIn(t, r.loc))
+//@   ensures @nil r == nil ==> result
+//@   ensures @window r != nil ==> (result <==> inrange(r, lsecIn(t, r.loc)))
+
+// two instants are in the same session iff one window contains both
+//@ spec samedaily(r *TimeRange, x mathint, y mathint) bool = (inwin(r, x, div(x, 86400)) && inwin(r, y, div(x, 86400))) || (inwin(r, x, div(x, 86400) - 1) && inwin(r, y, div(x, 86400) - 1))
+//@ spec sameweekly(r *TimeRange, x mathint, y mathint) bool = (inwk(r, x, div(sunx(x), 604800)) && inwk(r, y, div(sunx(x), 604800))) || (inwk(r, x, div(sunx(x), 604800) - 1) && inwk(r, y, div(sunx(x), 604800) - 1))
+//@ spec samewin(r *TimeRange, x mathint, y mathint) bool = r.startDay != nil ? sameweekly(r, x, y) : samedaily(r, x, y)
+
+//@ func (r *TimeRange) IsInSameRange [C18]
+//@   pure
+//@   nilable
+//@   requires r != nil ==> trwf(r) && away(r, lsecIn(t1, r.loc)) && away(r, lsecIn(t2, r.loc))
+//@   uses weeksec(lsecIn(t1, r.loc))
+//@   uses weeksec(lsecIn(t2, r.loc))
+//@   ensures @nil r == nil ==> result
+//@   ensures @same r != nil ==> (result <==> samewin(r, lsecIn(t1, r.loc), lsecIn(t2, r.loc)))
+
+// constructors establish the well-formedness the classification functions rely on
+//@ func ParseTimeOfDay [C18]
+//@   ensures @wf result1 == nil ==> todok(result0)
+
+//@ func NewTimeRangeInLocation [C18]
+//@   requires todok(start) && todok(end) && (forall i :: 0 <= i && i < len(weekdays) ==> 0 <= weekdays[i] && weekdays[i] <= 6)
+//@   ensures @nilloc (result1 == nil) <==> loc != nil
+//@   ensures @wf result1 == nil ==> result0 != nil && trwf(result0) && result0.startDay == nil && result0.loc == loc && result0.weekdays == weekdays
+//@   ensures @times result1 == nil ==> secs(result0.startTime) == secs(start) && secs(result0.endTime) == secs(end)
+
+//@ func NewWeekRangeInLocation [C18]
+//@   requires todok(startTime) && todok(endTime) && 0 <= startDay && startDay <= 6 && 0 <= endDay && endDay <= 6
+//@   ensures @nilloc (result1 == nil) <==> loc != nil
+//@   ensures @wf result1 == nil ==> result0 != nil && trwf(result0) && result0.startDay != nil && *result0.startDay == startDay && *result0.endDay == endDay
+//@   ensures @times result1 == nil ==> secs(result0.startTime) == secs(startTime) && secs(result0.endTime) == secs(endTime)
